@@ -10,7 +10,7 @@ What the class keeps (dimarray/core/axes.py, current /repo):
   name                the cached `_name`
   __getitem__         inherited from Axis: `g[:]` is `g`; a slice / list reads `self.values` (fills the cache) and
                       returns a PLAIN Axis holding the selected tuples
-  take                inherited: reads the private `_values` directly - AttributeError while the cache is empty
+  take                inherited: reads the labels through the `values` property (fills the cache; F73)
   __setitem__         inherited: `_maybe_cast_type(self._values, ...)` - AttributeError while the cache is empty;
                       afterwards it rewrites the CACHED tuples only, the members are not touched
   copy                deepcopy: members are copied too (new objects), cached fields copied as they are
@@ -149,22 +149,22 @@ def step (s : St) : GOp → St × Res
     match s.grouped[g]? with
     | none => (s, .err .other)
     | some x =>
-      match x.vals with
-      | none => (s, .err .attribute)                                   -- `None.take`
-      | some T =>
-        match ps.mapM (fun p => (AxisCache.normPos T.length p).bind (T[·]?)) with
-        | none => (s, .err .index)
-        | some R => (s, .tuples R)
+      -- `self.values.take(...)`: the labels are read through the property (filled when empty; since the repair F73 -
+      -- before it the private attribute was read and the call raised AttributeError while the cache was empty)
+      let x' := fillVals s.plain x
+      let T := x'.vals.getD []
+      match ps.mapM (fun p => (AxisCache.normPos T.length p).bind (T[·]?)) with
+      | none => ({ s with grouped := s.grouped.set g x' }, .err .index)
+      | some R => ({ s with grouped := s.grouped.set g x' }, .tuples R)
   | .setItemG g pos t =>
     match s.grouped[g]? with
     | none => (s, .err .other)
     | some x =>
-      match x.vals with
-      | none => (s, .err .attribute)                                   -- `None.dtype`
-      | some T =>
-        match AxisCache.normPos T.length pos with
-        | none => (s, .err .index)
-        | some k => ({ s with grouped := s.grouped.set g { x with vals := some (T.set k t) } }, .unit)
+      let x' := fillVals s.plain x                                     -- `_maybe_cast_type(self.values, value)` (F73)
+      let T := x'.vals.getD []
+      match AxisCache.normPos T.length pos with
+      | none => ({ s with grouped := s.grouped.set g x' }, .err .index)
+      | some k => ({ s with grouped := s.grouped.set g { x' with vals := some (T.set k t) } }, .unit)
   | .copyG g =>
     match s.grouped[g]? with
     | none => (s, .err .other)
